@@ -595,6 +595,11 @@ class BaseAlignmentModel(ABC):
         return self._n_templates
 
 
+def _is_identity(quaternions: NDArray[np.floating]) -> bool:
+    """True if the only rotation to search is the identity."""
+    return quaternions.shape[0] == 1 and bool(np.allclose(np.abs(quaternions[0, 3]), 1.0))
+
+
 class RotationImplemented(BaseAlignmentModel):
     """
     An alignment model implemented with default rotation optimizer.
@@ -759,7 +764,7 @@ class RotationImplemented(BaseAlignmentModel):
         xp = backend or Backend()
         if out := self._template_mask_cache.get(xp):
             return out
-        if self._n_rotations > 1:
+        if self._n_rotations > 1 or not _is_identity(self.quaternions):
             rotators = [Rotation.from_quat(r).inv() for r in self.quaternions]
             matrices = compose_matrices(
                 np.array(self._template.shape[-3:]) / 2 - 0.5, rotators
@@ -821,6 +826,9 @@ class RotationImplemented(BaseAlignmentModel):
             )
             template_input = xp.stack(_templates, axis=0)  # type: ignore
             mask_input = xp.stack(_masks, axis=0)  # type: ignore
+            if self.niter == 1:
+                # single template with a single (non-identity) rotation
+                template_input, mask_input = template_input[0], mask_input[0]
         else:
             pool = DaskTaskPool.from_func(self.pre_transform)
             if self._n_templates > 1:
